@@ -190,7 +190,7 @@ Print Assumptions C14_all_bands_encodable.
    end with {0, 2} - one payload for block 0, the added channel stays unknown;
    a device that also has channel 3 keeps it; a device with {2, 0} already matches *)
 Example C14_example :
-  let s := run (match nth_error configs 32 with Some (_, _, _, s) => s | None => mkSt false 0 0 [] [] [] end)
+  let s := run (match nth_error configs 32 with Some (_, _, _, s) => s | None => mkSt false 0 0 [] [] [] [] end)
                [AddChannel 867100000 0 5; Disable 1] in
   target s [0; 1] = [0; 2] /\ target s [0; 1; 3] = [0; 2; 3] /\
   plan_generic 16 s [0; 1] = Ok [mkPayload 0 0 (true :: false :: true :: repeat false 13) 0 0] /\
